@@ -210,7 +210,7 @@ def main():
             "guard": "fastcgi_server_verif",
             "enable": "RUSTFLAGS='--cfg fastcgi_server_verif' (set by ./check when it builds /verif/harness against /repo)",
             "baseline_off_cmd": "cd /repo && cargo test --workspace --no-fail-fast --offline",
-            "source_commits": [],
+            "source_commits": ["ed42bbf"],
             "add_only": True,
         },
         "engines": [{
